@@ -410,6 +410,8 @@ class Interp:
                 self._own(x)
 
     def log_event(self, typ, cont, key=None, extra=None):
+        if getattr(self, "_quiet", False):
+            return
         if not self.tracing:
             return
         if extra is None and getattr(self, "range_count", None) is not None:
@@ -842,12 +844,56 @@ class Interp:
         v = self.ev(e["r"], env)
         op = e["op"]
         if op == "=":
-            self.assign(r, v, e)
+            # x = x + d (x a loop-carried local, or the same element that is being stored) is the accumulation x += d
+            acc = self.as_accumulation(r, v)
+            if acc is not None:
+                self.assign(r, v, e, accumulate="+=", delta=acc)
+            else:
+                self.assign(r, v, e)
         else:
             old = self.load(r)
             d = v if op == "+=" else (self.neg(v) if op == "-=" else None)
             self.assign(r, self.arith(op[0], old, v, e), e, accumulate=op, delta=d)
         return r
+
+    def as_accumulation(self, r, v):
+        """d such that the stored value v is (current value of the target) + d with d free of the target, when the target
+        is a loop-carried local or an array element; None otherwise"""
+        if not (isinstance(r, Ref) and r.kind in ("var", "elem", "row")):
+            return None
+        self._quiet = True          # looking at the current value is not a read the program makes
+        try:
+            cur = self.load(r)
+        except Exception:
+            return None
+        finally:
+            self._quiet = False
+        if isinstance(cur, sp.Basic) and isinstance(v, sp.Basic):
+            carried = {x for x in cur.free_symbols if x.name.startswith("$")}
+            own = set(cur.atoms(sp.Indexed)) if r.kind == "elem" else set()
+            if (not carried and not own) or cur == 0:
+                return None
+            # structural only (no expansion of large right-hand sides): every summand of the current value is a summand
+            # of the new one; what is left over is the increment
+            rest = list(sp.Add.make_args(v))
+            for a_ in sp.Add.make_args(cur):
+                if a_ in rest:
+                    rest.remove(a_)
+                else:
+                    return None
+            d = sp.Add(*rest)
+            if d == 0 or (d.free_symbols & carried) or (set(d.atoms(sp.Indexed)) & own):
+                return None
+            return d
+        if isinstance(cur, Vec) and isinstance(v, Vec) and len(cur.t) == 1:
+            (a, c), = cur.t.items()
+            if not (sp.sympify(c) == 1 and (str(a[0]).startswith("$") or r.kind == "row")):
+                return None
+            d = v.add(cur, -1)
+            if d.is_zero() or a in d.t:
+                return None
+            return d
+        return None
 
     def e_subscript(self, e, env):
         base = self.evl(e["base"], env)
